@@ -19,6 +19,8 @@ package cacheutil
 import (
 	"sync"
 	"time"
+
+	"github.com/containerd/stargz-snapshotter/util/verifhook"
 )
 
 // TTLCache is a ttl-based cache with reference counters.
@@ -46,6 +48,7 @@ func NewTTLCache(ttl time.Duration) *TTLCache {
 // will no longer be used.
 func (c *TTLCache) Get(key string) (value any, done func(bool), ok bool) {
 	c.mu.Lock()
+	verifhook.Event("ttl.Get", c, key)
 	defer c.mu.Unlock()
 	rc, ok := c.m[key]
 	if !ok {
@@ -61,6 +64,7 @@ func (c *TTLCache) Get(key string) (value any, done func(bool), ok bool) {
 // `done` callback to decrease the counter when the value will no longer be used.
 func (c *TTLCache) Add(key string, value any) (cachedValue any, done func(bool), added bool) {
 	c.mu.Lock()
+	verifhook.Event("ttl.Add", c, key)
 	defer c.mu.Unlock()
 	if rc, ok := c.m[key]; ok {
 		rc.inc()
@@ -77,6 +81,7 @@ func (c *TTLCache) Add(key string, value any) (cachedValue any, done func(bool),
 	rc.inc()        // The client references this object (will be decreased on "done")
 	rc.t = time.AfterFunc(c.ttl, func() {
 		c.mu.Lock()
+		verifhook.Event("ttl.Timer", c, key)
 		defer c.mu.Unlock()
 		c.evictLocked(key)
 	})
@@ -88,6 +93,7 @@ func (c *TTLCache) Add(key string, value any) (cachedValue any, done func(bool),
 // nobody refers to the removed content.
 func (c *TTLCache) Remove(key string) {
 	c.mu.Lock()
+	verifhook.Event("ttl.Remove", c, key)
 	defer c.mu.Unlock()
 	c.evictLocked(key)
 }
@@ -104,6 +110,7 @@ func (c *TTLCache) decreaseOnceFunc(rc *refCounterWithTimer) func(bool) {
 	var once sync.Once
 	return func(evict bool) {
 		c.mu.Lock()
+		verifhook.Event("ttl.Release", c, rc.key, evict)
 		defer c.mu.Unlock()
 		once.Do(func() { rc.dec() })
 		if evict {
